@@ -26,7 +26,7 @@ RECURSIVE LeavesOf(_)
 LeavesOf(x) == CASE x.k \in {"lit", "ref"} -> {x} [] x.k = "un" -> LeavesOf(x.x) [] OTHER -> LeavesOf(x.l) \cup LeavesOf(x.r)
 
 Sites == {"i-imm", "s-imm", "u-imm", "shamt", "c-imm", "c-lw", "db", "dw", "pack", "hi", "lo", "position", "li",
-          "reg-rd", "reg-rs1", "reg-rs2", "reg-c"}
+          "reg-rd", "reg-rs1", "reg-rs2", "reg-c", "reg-mv-rd", "reg-mv-rs", "reg-li", "reg-neg", "reg-jr", "reg-beqz", "reg-seqz"}
 SiteValues(s) ==
   CASE s \in {"i-imm", "s-imm", "lo"} -> {-2048, -1, 0, 1, 5, 31, 32, 2047}
     [] s = "u-imm" -> {0, 1, 31, 32, 524287, 1048575}
